@@ -30,9 +30,9 @@ type SeqSim interface {
 
 // SeqEngine adapts a SeqSim factory to the Engine interface.
 type SeqEngine struct {
-	Id       string
-	New      func(st *Stats) SeqSim
-	Desc     Description
+	Id        string
+	New       func(st *Stats) SeqSim
+	Desc      Description
 	Simplify_ func(t *Trace) []*Trace
 	// Known lists violation keys that are recorded as known findings and do
 	// not end the run.
@@ -57,14 +57,14 @@ func guard(kind string, step int, f func() *Violation) (v *Violation) {
 	defer func() {
 		if r := recover(); r != nil {
 			st := string(debug.Stack())
-			v = &Violation{Class: "panic:" + kind, Key: "panic:" + kind + ":" + panicSite(st), Detail: fmt.Sprintf("panic: %v\n%s", r, trimStack(st)), Step: step}
+			v = &Violation{Class: "panic:" + kind, Key: "panic:" + kind + ":" + PanicSite(st), Detail: fmt.Sprintf("panic: %v\n%s", r, trimStack(st)), Step: step}
 		}
 	}()
 	return f()
 }
 
-// panicSite extracts the innermost frame inside the repository under test.
-func panicSite(stack string) string {
+// PanicSite extracts the innermost frame inside the repository under test.
+func PanicSite(stack string) string {
 	lines := strings.Split(stack, "\n")
 	seenPanic := false
 	for _, l := range lines {
